@@ -1455,6 +1455,16 @@ impl PeerConnection {
                 || previous.media_sections != desc.media_sections
         });
 
+        // Refuse a changed fingerprint before anything is applied: a refused call must leave
+        // the signaling state, the stored descriptions and the transceivers as they were.
+        if self.inner.dtls_transport.lock().is_some()
+            && *self.inner.remote_dtls_fingerprint.lock() != remote_dtls_fingerprint
+        {
+            return Err(RtcError::InvalidState(
+                "changing remote DTLS fingerprint after transport start is not supported".into(),
+            ));
+        }
+
         if previous_remote.is_some() && media_parameters_changed {
             // Apply changed media parameters to the existing transports.
             let current_state = *self.inner.signaling_state.borrow();
@@ -1568,19 +1578,10 @@ impl PeerConnection {
             }
         }
 
-        {
-            // Cache the remote fingerprint before ICE/DTLS starts so the handshake can bind
-            // the SDP identity to the certificate actually presented on the wire.
-            let dtls_started = self.inner.dtls_transport.lock().is_some();
-            let mut stored = self.inner.remote_dtls_fingerprint.lock();
-            if dtls_started && *stored != remote_dtls_fingerprint {
-                return Err(RtcError::InvalidState(
-                    "changing remote DTLS fingerprint after transport start is not supported"
-                        .into(),
-                ));
-            }
-            *stored = remote_dtls_fingerprint;
-        }
+        // Cache the remote fingerprint before ICE/DTLS starts so the handshake can bind
+        // the SDP identity to the certificate actually presented on the wire (a change
+        // after the transport started was refused above).
+        *self.inner.remote_dtls_fingerprint.lock() = remote_dtls_fingerprint;
 
         // Start ICE
         let mut ufrag = None;
